@@ -296,6 +296,11 @@ pub fn plan(prop: &str, tier: Tier) -> Option<Plan> {
         }
         rule.push_str(" | the same engines also run against a nightly build of the crate with `unstable_dropck_eyepatch` (flavour eyep).");
     }
+    // Default is a constructor: wherever a handle type implements it the result is a fresh sole owner (autoref
+    // probes inside the copy-constructor engine; the clause is tagged C06, C04, C09)
+    if matches!(prop, "C04" | "C09") {
+        jobs.push(job(eng::ctor::CopyCtorEngine, if q { 1600 } else { 40_000 }, "all"));
+    }
     // the `dbg` flavour: the library compiled with debug assertions and overflow checks ON (the profile a client's
     // `cargo test` uses). A debug_assert that is wrong, or a code path that differs under cfg(debug_assertions),
     // is invisible to the release-like flavours.
@@ -362,9 +367,10 @@ pub fn plan(prop: &str, tier: Tier) -> Option<Plan> {
     // (./check builds it for the thorough tier of the schedule-dependent properties, or with VERIF_TSAN=1)
     // compile probes: the impls / constructors exist for the whole class of payload types the property
     // quantifies over (a tightened bound cannot be seen by engines that are themselves compiled against it)
-    if matches!(prop, "C06" | "C14" | "C17") {
+    if matches!(prop, "C06" | "C10" | "C14" | "C17") {
         let p: &'static str = match prop {
             "C06" => "C06",
+            "C10" => "C10",
             "C14" => "C14",
             _ => "C17",
         };
